@@ -78,7 +78,7 @@ size_t svalue_save_size (const svalue_t * v) {
 
         while ((c = *cp++))
           {
-            if (c == '\\' || c == '"') /* need to escape these characters */
+            if (c == '\\' || c == '"' || c == '\r') /* need to escape these characters */
               size++;
             size++;
           }
@@ -175,8 +175,10 @@ void save_svalue (svalue_t * v, char **buf) {
         *cp++ = '"';
         while ((c = *str++))
           {
-            if (c == '"' || c == '\\')
+            if (c == '"' || c == '\\' || c == '\r')
               {
+                /* a bare CR in the file stands for LF (below); a real CR is written escaped: every
+                   restore, old or new, takes an escaped character verbatim */
                 *cp++ = '\\';
                 *cp++ = c;
               }
